@@ -228,3 +228,10 @@ def clear_process_state():
     _cfg._registered_function_names.clear()
     _cfg._registered_functions.clear()
     _code_hash._dotted_names_cache.clear() if hasattr(_code_hash._dotted_names_cache, "clear") else None
+
+
+def restart_sandbox(sb, kind):
+    """Emulate a process restart on the same persistent store: every in-process object is thrown away."""
+    reset_memento_globals()
+    sb.env.default_cluster.storage = sb.make_storage(kind, "default")
+    return sb.env.default_cluster.storage
